@@ -11,7 +11,8 @@ for id in $IDS; do
   props=$(python3 -c "
 import json,sys
 m=json.load(open('seeded/$id/meta.json'))
-print(' '.join(p for p,r in m.get('checks_run',{}).items() if r.get('exit')==1))")
+print('SKIP' if m.get('expected_silent') else ' '.join(p for p,r in m.get('checks_run',{}).items() if r.get('exit')==1))")
+  [ "$props" = "SKIP" ] && { echo "$id: expected to stay silent (see meta.json)"; continue; }
   [ -z "$props" ] && { echo "$id: no catching check recorded"; SILENT="$SILENT $id"; continue; }
   git -C /repo apply /verif/seeded/$id/patch.diff || { echo "$id: patch does not apply"; SILENT="$SILENT $id(apply)"; continue; }
   for p in $props; do
